@@ -11,6 +11,8 @@
 #include <cstring>
 #include <fstream>
 #include <iostream>
+#include <memory>
+#include <algorithm>
 #include <sstream>
 #include <stdexcept>
 #include <string>
@@ -93,6 +95,75 @@ template <typename F> static S view_check(const VS& expect, bool expect_exc, con
     } catch (const std::exception&) { return expect_exc ? "" : "exception"; }
 }
 
+// ---------------------------------------------------------------------------------------------------------
+// ALIASING argument mode: the argument VALUES of a call are laid out in ONE exactly-sized heap buffer and passed
+// as views into it -- same start with different lengths, same end, one inside the other, overlapping, the very
+// same range twice, or (always possible) directly adjacent.  The result must be the one obtained with
+// independently allocated arguments; a difference is flagged " !ALIAS:<function>:<layout>".
+struct Layout {
+    S name; char* buf; size_t n; std::vector<std::pair<size_t, size_t>> pos;
+    Layout() : buf(nullptr), n(0) {}
+    ~Layout() { delete[] buf; }
+    Layout(const Layout&) = delete; Layout& operator=(const Layout&) = delete;
+    tlx::string_view v(size_t i) const { return tlx::string_view(buf + pos[i].first, pos[i].second); }
+};
+typedef std::vector<std::unique_ptr<Layout>> Layouts;
+static Layouts layouts(const std::vector<S>& vals) {
+    Layouts out;
+    std::vector<std::pair<size_t, size_t>> adjacent;
+    for (int mode = 0; mode < 4; ++mode) {
+        std::unique_ptr<Layout> L(new Layout());
+        static const char* names[4] = {"adjacent", "shared-first", "shared-last", "overlap"};
+        L->name = names[mode];
+        S acc;
+        for (const S& v : vals) {
+            size_t k = S::npos;
+            if (mode == 1 && !v.empty()) k = acc.find(v);
+            if (mode == 2 && !v.empty()) k = acc.rfind(v);
+            if (mode == 3 && !v.empty()) {
+                size_t o = std::min(acc.size(), v.size());
+                while (o > 0 && acc.compare(acc.size() - o, o, v, 0, o) != 0) --o;
+                k = acc.size() - o; acc += v.substr(o);
+            }
+            if (v.empty()) k = acc.size() / 2;                       // an empty view somewhere inside
+            if (k == S::npos) { k = acc.size(); acc += v; }
+            L->pos.push_back(std::make_pair(k, v.size()));
+        }
+        if (mode == 0) adjacent = L->pos; else if (L->pos == adjacent) continue;
+        L->n = acc.size(); L->buf = new char[acc.size() ? acc.size() : 1];
+        if (L->n) memcpy(L->buf, acc.data(), L->n);
+        out.push_back(std::move(L));
+    }
+    return out;
+}
+template <typename F> static void alias_check(std::ostream& out, const char* fn, const std::vector<S>& vals, const S& expect, F f) {
+    Layouts ls = layouts(vals);
+    for (auto& L : ls) {
+        S r; try { r = f(*L); } catch (const std::exception&) { r = "EXC"; }
+        if (r != expect) { out << " !ALIAS:" << fn << ":" << L->name; return; }
+    }
+}
+// NUL-terminated variant for the const char* overloads: b must be a suffix of a (same end) -- includes b == a (same pointer)
+struct CAlias {
+    bool ok; char* buf; const char* a; const char* b; size_t na, nb;
+    CAlias(const S& x, const S& y) : ok(false), buf(nullptr), a(nullptr), b(nullptr), na(x.size()), nb(y.size()) {
+        if (x.find('\0') != S::npos || y.size() > x.size() || x.compare(x.size() - y.size(), y.size(), y) != 0) return;
+        buf = new char[x.size() + 1]; memcpy(buf, x.c_str(), x.size() + 1); a = buf; b = buf + (x.size() - y.size()); ok = true;
+    }
+    ~CAlias() { delete[] buf; }
+    CAlias(const CAlias&) = delete; CAlias& operator=(const CAlias&) = delete;
+    tlx::string_view va() const { return tlx::string_view(a, na); }
+    tlx::string_view vb() const { return tlx::string_view(b, nb); }
+};
+// in-place functions whose read-only arguments are views INTO the string being modified: the values are located in
+// a copy of s with spare capacity (no reallocation, so the views stay inside live storage)
+static bool find_in(const S& t, const S& v, bool last, tlx::string_view* out) {
+    if (v.empty()) { *out = tlx::string_view(t.data(), static_cast<size_t>(0)); return true; }
+    size_t k = last ? t.rfind(v) : t.find(v);
+    if (k == S::npos) return false;
+    *out = tlx::string_view(t.data() + k, v.size()); return true;
+}
+
 static VS parts_of(std::istringstream& in) {
     size_t n; in >> n; VS v; S t;
     for (size_t i = 0; i < n; ++i) { in >> t; v.push_back(unhex(t)); }
@@ -106,7 +177,7 @@ template <typename F> static S guard(F f) {
 static S run_case(const S& line) {
     std::istringstream in(line);
     S op; in >> op;
-    std::ostringstream out;
+    std::ostringstream out, py;      // py: results judged by the Python side only (appended after " ## ")
     if (op == "b64") {
         S hs; size_t lb; in >> hs >> lb; S s = unhex(hs); Exact xs(s);
         S e = tlx::base64_encode(xs.view(), lb);
@@ -142,7 +213,7 @@ static S run_case(const S& line) {
         if (s.size() == 8) { std::uint64_t t; memcpy(&t, s.data(), 8); if (tlx::hexdump_type(t) != u || tlx::hexdump_lc_type(t) != l) out << " !OVERLOAD:hexdump_type<uint64_t>"; }
         if (s.size() == 12) { struct { unsigned char b[12]; } t; memcpy(&t, s.data(), 12); if (tlx::hexdump_type(t) != u || tlx::hexdump_lc_type(t) != l) out << " !OVERLOAD:hexdump_type<struct>"; }
         // Python-only part (no Coq model): hexdump_sourcecode with an explicit and with the default variable name
-        out << " ## src=" << hex(tlx::hexdump_sourcecode(xs.view(), "v")) << " srcn=" << hex(tlx::hexdump_sourcecode(xs.view()));
+        py << " src=" << hex(tlx::hexdump_sourcecode(xs.view(), "v")) << " srcn=" << hex(tlx::hexdump_sourcecode(xs.view()));
     } else if (op == "phex") {
         S hs; in >> hs; S s = unhex(hs); Exact xs(s);
         out << "out=" << guard([&] { return hex(tlx::parse_hexdump(xs.view())); });
@@ -196,6 +267,17 @@ static S run_case(const S& line) {
             }
             if (!why.empty()) out << " !OVERLOAD:split_view(string):" << why;
         }
+        {   // aliasing: separator and text are views of one buffer
+            S expect = guard([&] { return show(op == "splsm" ? tlx::split(xsep.view(), xs.view(), mn, limit_of(lim)) : tlx::split(xsep.view(), xs.view(), limit_of(lim))); });
+            size_t L = limit_of(lim);
+            alias_check(out, "split(string)", {s, sep}, expect, [&](const Layout& l) {
+                VS w; w.push_back("junk");
+                if (op == "splsm") { tlx::split(&w, l.v(1), l.v(0), mn, L); return show(tlx::split(l.v(1), l.v(0), mn, L)) + (w == tlx::split(l.v(1), l.v(0), mn, L) ? "" : "?into"); }
+                tlx::split(&w, l.v(1), l.v(0), L); return show(tlx::split(l.v(1), l.v(0), L)) + (w == tlx::split(l.v(1), l.v(0), L) ? "" : "?into"); });
+            alias_check(out, "split_view(string)", {s, sep}, expect, [&](const Layout& l) {
+                VV v = op == "splsm" ? tlx::split_view(l.v(1), l.v(0), mn, L) : tlx::split_view(l.v(1), l.v(0), L);
+                VS w; if (!views_to_strings(v, l.buf, l.n, w)) return S("view outside the buffer"); return show(w); });
+        }
     } else if (op == "joinc") {
         S hsep; in >> hsep; char sep = byte_of(hsep); VS parts = parts_of(in);
         S j = tlx::join(sep, parts); Exact xj(j);
@@ -212,6 +294,15 @@ static S run_case(const S& line) {
         if (tlx::join(xsep.view(), pl.begin(), pl.end()) != j || tlx::join(sep, parts.begin(), parts.end()) != j) out << " !OVERLOAD:join(string,first,last)";
         if (no_nul(sep) && tlx::join(sep.c_str(), pl.begin(), pl.end()) != j) out << " !OVERLOAD:join(const char*,first,last)";
         if (tlx::join(xsep.view(), pl) != j || tlx::join(xsep.view(), pd) != j) out << " !OVERLOAD:join(string_view,Container)";
+        for (size_t i = 0; i < parts.size(); ++i) {          // aliasing: the separator object is (part of) an element of the vector
+            size_t k = sep.empty() ? S::npos : parts[i].find(sep);
+            if (k == S::npos) continue;
+            tlx::string_view g(parts[i].data() + k, sep.size());
+            if (tlx::join(g, parts) != j || tlx::join(g, parts.begin(), parts.end()) != j || tlx::join(g, pl.begin(), pl.end()) != j) out << " !ALIAS:join(string_view glue inside parts)";
+            if (parts[i] == sep && (tlx::join(tlx::string_view(parts[i]), parts) != j || tlx::join(parts[i], parts.begin(), parts.end()) != j ||
+                                    (no_nul(sep) && tlx::join(parts[i].c_str(), parts) != j))) out << " !ALIAS:join(parts[i], parts)";
+            break;
+        }
     } else if (op == "jq") {
         S a, b, c; in >> a >> b >> c; char sep = byte_of(a), q = byte_of(b), e = byte_of(c); VS parts = parts_of(in);
         S j = tlx::join_quoted(parts, sep, q, e); Exact xj(j);
@@ -228,6 +319,22 @@ static S run_case(const S& line) {
         if (op == "rep1") { r = tlx::replace_first(xs.view(), xn.view(), xi.view()); tlx::replace_first(&t, xn.view(), xi.view()); }
         else { r = tlx::replace_all(xs.view(), xn.view(), xi.view()); tlx::replace_all(&t, xn.view(), xi.view()); }
         out << hex(r); if (t != r) out << " !OVERLOAD:in-place";
+        alias_check(out, op == "rep1" ? "replace_first" : "replace_all", {s, nd, ins}, hex(r), [&](const Layout& l) {
+            return hex(op == "rep1" ? tlx::replace_first(l.v(0), l.v(1), l.v(2)) : tlx::replace_all(l.v(0), l.v(1), l.v(2))); });
+        {   // output = input: the result is assigned back to the string the views refer to
+            S u = s; u = op == "rep1" ? tlx::replace_first(tlx::string_view(u), xn.view(), xi.view()) : tlx::replace_all(tlx::string_view(u), xn.view(), xi.view());
+            if (u != r) out << " !ALIAS:s=replace(s)";
+        }
+        for (int last = 0; last < 2; ++last) {   // in-place, needle / instead are views into *str
+            S u = s; u.reserve(u.size() * (ins.size() + 1) + 64);
+            tlx::string_view vn, vi;
+            bool an = !nd.empty() && find_in(u, nd, last != 0, &vn), ai = !ins.empty() && find_in(u, ins, last == 0, &vi);
+            if (!an && !ai) continue;                    // at least one of the two is a view into *str, the other one may be independent
+            if (!an) vn = xn.view();
+            if (!ai) vi = xi.view();
+            if (op == "rep1") { tlx::replace_first(&u, vn, vi); if (u != r) { out << " !ALIAS:replace_first(&s, views of s)"; break; } }
+            else { tlx::replace_all(&u, vn, vi); if (u != r) { py << " aobs=replace_all(&s,views_of_s)"; break; } }
+        }
     } else if (op == "rep1c" || op == "repac") {
         S hs, a, b; in >> hs >> a >> b; S s = unhex(hs); Exact xs(s); char x = byte_of(a), y = byte_of(b);
         S r, t = s;
@@ -249,6 +356,25 @@ static S run_case(const S& line) {
         if (tv.to_string() != ti) out << " !OVERLOAD:trim(string_view*)";
         if (lv.to_string() != l || lc != l) out << " !OVERLOAD:trim_left";
         if (rv.to_string() != r || rc != r) out << " !OVERLOAD:trim_right";
+        {   // aliasing: text and drop set are views of one buffer (copying and string_view* versions)
+            S expect = hex(tc) + "/" + hex(l) + "/" + hex(r);
+            alias_check(out, "trim/trim_left/trim_right(string_view)", {s, d}, expect, [&](const Layout& y) {
+                return hex(tlx::trim(y.v(0), y.v(1)).to_string()) + "/" + hex(tlx::trim_left(y.v(0), y.v(1)).to_string()) + "/" + hex(tlx::trim_right(y.v(0), y.v(1)).to_string()); });
+            alias_check(out, "trim/trim_left/trim_right(string_view*)", {s, d}, expect, [&](const Layout& y) {
+                tlx::string_view a = y.v(0), b = y.v(0), c = y.v(0); tlx::trim(&a, y.v(1)); tlx::trim_left(&b, y.v(1)); tlx::trim_right(&c, y.v(1));
+                return hex(a.to_string()) + "/" + hex(b.to_string()) + "/" + hex(c.to_string()); });
+            // output = input: s = trim(s)
+            S u = s; { tlx::string_view w = tlx::trim(tlx::string_view(u), xd.view()); u.assign(w.data(), w.size()); } if (u != tc) out << " !ALIAS:s=trim(s)";
+            S u2 = s; { tlx::string_view w = tlx::trim_left(tlx::string_view(u2), xd.view()); u2 = S(w.data(), w.size()); } if (u2 != l) out << " !ALIAS:s=trim_left(s)";
+            // in-place std::string*, the drop set a view INTO the string
+            for (int last = 0; last < 2; ++last) {
+                S a = s, b = s, c = s; tlx::string_view va, vb, vc;
+                if (d.empty() || !find_in(a, d, last != 0, &va) || !find_in(b, d, last != 0, &vb) || !find_in(c, d, last != 0, &vc)) continue;
+                tlx::trim_left(&b, vb); if (b != l) { out << " !ALIAS:trim_left(&s, view of s)"; break; }
+                tlx::trim_right(&c, vc); if (c != r) { out << " !ALIAS:trim_right(&s, view of s)"; break; }
+                tlx::trim(&a, va); if (a != ti) { py << " aobs=trim(&s,view_of_s)"; break; }
+            }
+        }
         if (d.size() == 1) {
             char c = d[0];
             S a = s; tlx::trim(&a, c); tlx::string_view av = xs.view(); tlx::trim(&av, c);
@@ -272,6 +398,16 @@ static S run_case(const S& line) {
         bool ew = tlx::ends_with(xs.view(), xm.view()), ewi = tlx::ends_with_icase(xs.view(), xm.view());
         bool c = tlx::contains(xs.view(), xm.view());
         out << "sw=" << b2s(sw) << " swi=" << b2s(swi) << " ew=" << b2s(ew) << " ewi=" << b2s(ewi) << " c=" << b2s(c);
+        {
+            S expect = out.str();
+            alias_check(out, "starts_with/ends_with/contains", {s, m}, expect, [&](const Layout& y) {
+                return "sw=" + b2s(tlx::starts_with(y.v(0), y.v(1))) + " swi=" + b2s(tlx::starts_with_icase(y.v(0), y.v(1))) + " ew=" + b2s(tlx::ends_with(y.v(0), y.v(1))) +
+                       " ewi=" + b2s(tlx::ends_with_icase(y.v(0), y.v(1))) + " c=" + b2s(tlx::contains(y.v(0), y.v(1))); });
+            CAlias ca(s, m);            // m a suffix of s: both C strings end at the same NUL
+            if (ca.ok && no_nul(s) && (tlx::ends_with(ca.a, ca.b) != ew || tlx::ends_with(ca.a, ca.vb()) != ew || tlx::ends_with(ca.va(), ca.b) != ew ||
+                          tlx::ends_with_icase(ca.a, ca.b) != ewi || tlx::ends_with_icase(ca.a, ca.vb()) != ewi || tlx::ends_with_icase(ca.va(), ca.b) != ewi))
+                out << " !ALIAS:ends_with(const char*, same end)";
+        }
         if (m.size() == 1 && tlx::contains(xs.view(), m[0]) != c) out << " !OVERLOAD:contains(char)";
         if (no_nul(s) && no_nul(m)) {
             if (tlx::ends_with(s.c_str(), m.c_str()) != ew || tlx::ends_with(s.c_str(), xm.view()) != ew ||
@@ -292,6 +428,21 @@ static S run_case(const S& line) {
         int r = tlx::compare_icase(xa.view(), xb.view());
         bool eq = tlx::equal_icase(xa.view(), xb.view()), lt = tlx::less_icase(xa.view(), xb.view());
         out << r << " eq=" << b2s(eq) << " lt=" << b2s(lt);
+        {
+            S expect = out.str();
+            alias_check(out, "compare_icase/equal_icase/less_icase", {a, b}, expect, [&](const Layout& y) {
+                return std::to_string(tlx::compare_icase(y.v(0), y.v(1))) + " eq=" + b2s(tlx::equal_icase(y.v(0), y.v(1))) + " lt=" + b2s(tlx::less_icase(y.v(0), y.v(1))); });
+            for (int sw = 0; sw < 2; ++sw) {     // C strings sharing their end (the shorter is a suffix of the longer; equal strings: the same pointer twice)
+                const S& x = sw ? b : a; const S& z = sw ? a : b;
+                CAlias ca(x, z); if (!ca.ok) continue;
+                const char* pa = sw ? ca.b : ca.a; const char* pb = sw ? ca.a : ca.b;
+                tlx::string_view wa = sw ? ca.vb() : ca.va(), wb = sw ? ca.va() : ca.vb();
+                if (tlx::compare_icase(pa, pb) != r || tlx::compare_icase(pa, wb) != r || tlx::compare_icase(wa, pb) != r) out << " !ALIAS:compare_icase(const char*, same end)";
+                if (tlx::equal_icase(pa, pb) != eq || tlx::equal_icase(pa, wb) != eq || tlx::equal_icase(wa, pb) != eq) out << " !ALIAS:equal_icase(const char*, same end)";
+                if (tlx::less_icase(pa, pb) != lt || tlx::less_icase(pa, wb) != lt || tlx::less_icase(wa, pb) != lt) out << " !ALIAS:less_icase(const char*, same end)";
+                break;
+            }
+        }
         if (tlx::less_icase_asc()(xa.view(), xb.view()) != lt || tlx::less_icase_desc()(xa.view(), xb.view()) != !lt) out << " !OVERLOAD:less_icase_asc/desc";
         if (no_nul(a) && no_nul(b)) {
             if (tlx::equal_icase(a.c_str(), b.c_str()) != eq) out << " !OVERLOAD:equal_icase(const char*,const char*)";
@@ -310,6 +461,13 @@ static S run_case(const S& line) {
         S c = tlx::erase_all(xs.view(), xd.view());
         S i = s; tlx::erase_all(&i, xd.view());
         out << "c=" << hex(c) << " i=" << hex(i);
+        alias_check(out, "erase_all(string_view, string_view)", {s, d}, hex(c), [&](const Layout& y) { return hex(tlx::erase_all(y.v(0), y.v(1))); });
+        { S u = s; u = tlx::erase_all(tlx::string_view(u), xd.view()); if (u != c) out << " !ALIAS:s=erase_all(s)"; }
+        for (int last = 0; last < 2; ++last) {   // in-place, the drop set a view INTO the string
+            S u = s; tlx::string_view vd;
+            if (d.empty() || !find_in(u, d, last != 0, &vd)) continue;
+            tlx::erase_all(&u, vd); if (u != c) { py << " aobs=erase_all(&s,view_of_s)"; break; }
+        }
         if (d.size() == 1) {
             S j = s; tlx::erase_all(&j, d[0]);
             if (tlx::erase_all(xs.view(), d[0]) != c || j != i) out << " !OVERLOAD:erase_all(char)";
@@ -324,11 +482,25 @@ static S run_case(const S& line) {
         S ha, hb; in >> ha >> hb; S a = unhex(ha), b = unhex(hb); Exact xa(a), xb(b);
         size_t d = tlx::levenshtein(xa.view(), xb.view()), di = tlx::levenshtein_icase(xa.view(), xb.view());
         out << "d=" << d << " di=" << di;
+        {
+            S expect = out.str();
+            alias_check(out, "levenshtein/levenshtein_icase", {a, b}, expect, [&](const Layout& y) {
+                return "d=" + std::to_string(tlx::levenshtein(y.v(0), y.v(1))) + " di=" + std::to_string(tlx::levenshtein_icase(y.v(0), y.v(1))); });
+            alias_check(out, "levenshtein/levenshtein_icase(swapped)", {b, a}, expect, [&](const Layout& y) {
+                return "d=" + std::to_string(tlx::levenshtein(y.v(1), y.v(0))) + " di=" + std::to_string(tlx::levenshtein_icase(y.v(1), y.v(0))); });
+            for (int sw = 0; sw < 2; ++sw) {
+                CAlias ca(sw ? b : a, sw ? a : b); if (!ca.ok) continue;
+                const char* pa = sw ? ca.b : ca.a; const char* pb = sw ? ca.a : ca.b;
+                if (tlx::levenshtein(pa, pb) != d || tlx::levenshtein_icase(pa, pb) != di) out << " !ALIAS:levenshtein(const char*, same end)";
+                break;
+            }
+        }
         if (no_nul(a) && no_nul(b) && (tlx::levenshtein(a.c_str(), b.c_str()) != d || tlx::levenshtein_icase(a.c_str(), b.c_str()) != di))
             out << " !OVERLOAD:levenshtein(const char*)";
     } else {
         out << "?";
     }
+    if (!py.str().empty()) out << " ##" << py.str();
     return out.str();
 }
 
